@@ -861,7 +861,8 @@ pub fn judge(
                 match o.kind {
                     'R' if !o.text.contains(';') && !o.text.contains('|') => Obs::Val(o.text.clone()),
                     'P' => Obs::Panic(o.text.clone()),
-                    'E' => Obs::Err(if o.text == "Type" { 2 } else { 0 }),
+                    // integer literals: ErrClass::Type can only be DivisionByZero, Unsupported is the out-of-range error
+                    'E' => Obs::Err(if o.text == "Type" { 2 } else if o.text == "Unsupported" { 3 } else { 0 }),
                     _ => Obs::Val("SHAPE".into()),
                 }
             };
